@@ -441,7 +441,20 @@ func (s *Sim) removePending(c *Call) {
 	s.mu.Unlock()
 }
 
-func injectedErr(kind string) error {
+// injectedErr: the error a faulted call returns. The kind of error is varied by call
+// identity (not by a PRNG draw, so that generation and replay agree): code under test may
+// treat time-outs differently from plain failures.
+func (s *Sim) injectedErr(kind string, c *Call) error {
+	switch hash64(fmt.Sprint(s.Seed), kind, c.Task.Label(), c.Desc(), fmt.Sprint(c.Idx)) % 5 {
+	case 0:
+		return apierrors.NewTimeoutError("simulated "+kind, 1)
+	case 1:
+		return apierrors.NewServerTimeout(gr(c.Kind), c.Verb, 1)
+	case 2:
+		return apierrors.NewServiceUnavailable("simulated " + kind)
+	case 3:
+		return apierrors.NewTooManyRequestsError("simulated " + kind)
+	}
 	return apierrors.NewInternalError(fmt.Errorf("simulated %s", kind))
 }
 
@@ -467,13 +480,13 @@ func (s *Sim) grant(c *Call, fault string) {
 	case t.Crashed:
 		c.Err = errCrashed
 	case fault == "reject":
-		c.Err = injectedErr("rejected")
+		c.Err = s.injectedErr("rejected", c)
 		t.Faulted = true
 		s.Stats.Faults["reject"]++
 	default:
 		s.exec(c)
 		if fault == "lost" && c.Err == nil {
-			c.Err = injectedErr("reply lost")
+			c.Err = s.injectedErr("reply lost", c)
 			s.Stats.Faults["lost-reply"]++
 			t.Faulted = true
 		} else {
